@@ -1,4 +1,5 @@
 import JobShopProofs.FeatureWorld
+import JobShopProofs.EstSemantics
 /-!
 # C11 at full strength on the model: every reachable feature world
 
@@ -116,6 +117,22 @@ theorem C11_world_unscheduled (hk : o.kind = .unscheduled) : o.deques = dequesSp
   (C11_world c hv hF w hw id hid o ho).unsched hk
 
 end unpacked
+
+/-! ## why `estSpec` is the *earliest possible* start -/
+
+/-- **C11 (earliest start is a lower bound).** Whatever is dispatched from a reachable state on, an operation that is
+unscheduled now never starts before `estSpec`. -/
+theorem C11_est_is_earliest {I : Instance} (hv : Valid I) {s : State} (hc : CInv I s) (h : List (Nat × Nat × Nat))
+    (r : OpRef) (hr : r ∈ unscheduledPure I s) (x : SOp) (hx : x ∈ (runReqs I s h).sched.flatten)
+    (hxr : x.job = r.1 ∧ x.pos = r.2) : estSpec I s r ≤ x.start :=
+  est_lower_bound hv hc h r hr x hx hxr
+
+/-- **C11 (… and attained for the next operation of every job).** -/
+theorem C11_est_next_attained {I : Instance} (hv : Valid I) {s : State} (hc : CInv I s) (j : Nat) (op : Op)
+    (hop : getOp I j (s.jobIdx.getD j 0) = some op) :
+    ∃ m ∈ op.machines, ∃ s', dispatch I s j (s.jobIdx.getD j 0) m = .ok s' ∧
+      startTime s j m = estSpec I s (j, s.jobIdx.getD j 0) :=
+  est_next_attained hv hc j op hop
 
 /-! ## non-vacuity: a concrete reachable world with every observer, helpers created lazily, a flexible instance -/
 
